@@ -233,9 +233,21 @@ def StageReference(dataReference,  # type: experiment.model.graph.DataReference
                     if os.path.commonprefix([target, newPath]) != target:
                         raise tarfile.ReadError('Archive contains files that would be extracted outside of destination')
 
-                tar.extractall(dest)
+                #Link members can redirect themselves, or the members which follow them, outside dest.
+                #The `data` extraction filter (PEP 706) inspects each member right before it is extracted,
+                #taking into account what is already on the disk, and rejects links to absolute paths and
+                #to paths outside dest. Interpreters without extraction filters get a stricter static check
+                if hasattr(tarfile, 'data_filter'):
+                    tar.extractall(dest, filter='data')
+                else:
+                    for f in tar.getmembers():
+                        names = [f.name] + ([f.linkname] if f.issym() or f.islnk() else [])
+                        if any(os.path.isabs(n) or os.path.pardir in n.split('/') for n in names):
+                            raise tarfile.ReadError('Archive contains members/links with absolute paths or '
+                                                    '`..` segments, cannot verify they stay in destination')
+                    tar.extractall(dest)
                 tar.close()
-    except (shutil.Error, tarfile.ReadError, OSError) as stageError:
+    except (shutil.Error, tarfile.TarError, OSError) as stageError:
         raise experiment.model.errors.DataReferenceCouldNotStageError(dataReference, stageError)
 
 
